@@ -1,6 +1,7 @@
 package conc
 
 import (
+	"context"
 	"fmt"
 	"reflect"
 	"sort"
@@ -61,6 +62,18 @@ func niBoot() {
 }
 
 // an initializer that takes another (named) initializer as an ordering dependency
+// niWorker is a singleton that opens a scope of its own while the provider is being built, and
+// keeps it: a scope like any other (its initializers run once).
+type niWorker struct{ sc godi.Scope }
+
+func niNewWorker(p godi.Provider) *niWorker {
+	sc, err := p.CreateScope(context.Background())
+	if err != nil {
+		return &niWorker{}
+	}
+	return &niWorker{sc}
+}
+
 type niAfterIn struct {
 	godi.In
 	Ready struct{} `name:"warmup"`
@@ -132,6 +145,9 @@ func runC02NamedInitializers(c *eng.Ctx, next func() (int, bool)) {
 				func() error { return coll.AddScoped(niNewRepo) },
 				func() error { return coll.AddScoped(niNewSvc) },
 			}
+			if k%3 != 0 {
+				regs = append(regs, func() error { return coll.AddSingleton(niNewWorker) })
+			}
 			if order == 1 {
 				for i, j := 0, len(regs)-1; i < j; i, j = i+1, j-1 {
 					regs[i], regs[j] = regs[j], regs[i]
@@ -162,6 +178,15 @@ func runC02NamedInitializers(c *eng.Ctx, next func() (int, bool)) {
 				return
 			}
 			scopes = append(scopes, s1, s2, c1)
+			if k%3 != 0 {
+				wk, werr := godi.Resolve[*niWorker](prov)
+				if werr != nil || wk.sc == nil {
+					c.R.Inconclusive(idx, "the singleton could not open its scope during Build")
+					return
+				}
+				scopes = append(scopes, wk.sc)
+				c.R.Count("named_initializer_cases_with_a_scope_opened_during_build", 1)
+			}
 			created := len(scopes)
 			use := func(sc godi.Provider) {
 				_, _ = godi.Resolve[*niSvc](sc)
@@ -201,7 +226,7 @@ func runC02NamedInitializers(c *eng.Ctx, next func() (int, bool)) {
 					viol("initializer-count", "addressable-initializer:"+init, fmt.Sprintf("initializer %q must run exactly once per scope, when the scope is created; after keyed resolutions and resolutions of a dependent service: %v", init, bad))
 				}
 				if len(per) != created {
-					viol("initializer-count", "addressable-initializer:"+init+":scopes", fmt.Sprintf("initializer %q ran in %d scopes, %d scopes exist (root + 3)", init, len(per), created))
+					viol("initializer-count", "addressable-initializer:"+init+":scopes", fmt.Sprintf("initializer %q ran in %d scopes, %d scopes exist (root, 3 created after Build, and in some variants one opened by a singleton constructor during Build)", init, len(per), created))
 				}
 			}
 			if w.boots != 1 {
